@@ -47,6 +47,7 @@ var c02Scenarios = []string{
 	"tamper-signature", "tamper-submission-definition", "tamper-submission-path", "tamper-scope", "tamper-claim",
 	"delayed-past-validity", "duplicate-delivery", "other-audience", "other-audience-extended",
 	"openid4vp-valid", "openid4vp-forged-first-presentation", "openid4vp-forged-first-presentation",
+	"openid4vp-wrong-verifier", "openid4vp-wrong-client-id", "openid4vp-missing-verifier",
 	"reissued-valid", "reissued-overlong", "reissued-overlong", "reissued-stale", "reissued-not-yet-valid", "reissued-other-domain", "reissued-reused-nonce",
 	"override-iss", "override-client_id", "override-scope", "override-exp", "override-iat", "override-sub", "override-active", "override-cnf",
 }
@@ -249,6 +250,81 @@ func c02Body(s *simkit.Sim, rc *simkit.RunCtx) {
 				})
 			}
 		}
+		// The authorization-code grant's own conditions: the token request of the client is changed in transit so that the PKCE
+		// verifier does not belong to the challenge of the authorization request, or the client id is not the one the code was
+		// handed out to. The code itself is genuine and unused.
+		codeDefect := ""
+		if scenario == "openid4vp-wrong-verifier" || scenario == "openid4vp-wrong-client-id" || scenario == "openid4vp-missing-verifier" {
+			variant := s.D.Decide("code-defect-variant", 4)
+			w.HTTP.TamperRequest = func(req *http.Request, body []byte) []byte {
+				if !isTokenPost(req) {
+					return body
+				}
+				return editForm(body, func(v url.Values) {
+					if v.Get("grant_type") != "authorization_code" || v.Get("code") == "" {
+						return
+					}
+					switch scenario {
+					case "openid4vp-missing-verifier":
+						if variant%2 == 0 {
+							v.Del("code_verifier")
+							codeDefect = "code_verifier removed"
+						} else {
+							v.Set("code_verifier", "")
+							codeDefect = "code_verifier empty"
+						}
+					case "openid4vp-wrong-verifier":
+						cv := v.Get("code_verifier")
+						if cv == "" {
+							return
+						}
+						switch variant {
+						case 0:
+							v.Set("code_verifier", cv+"A")
+							codeDefect = "code_verifier extended by one character"
+						case 1:
+							v.Set("code_verifier", cv[:len(cv)-1])
+							codeDefect = "code_verifier shortened by one character"
+						case 2:
+							// the challenge of the authorization request (it travelled through the browser) presented as verifier
+							for _, r := range w.HTTP.Requests() {
+								if u, err := url.Parse(r.URL); err == nil && u.Query().Get("code_challenge") != "" {
+									v.Set("code_verifier", u.Query().Get("code_challenge"))
+									codeDefect = "code_challenge presented as code_verifier"
+								}
+							}
+							if codeDefect == "" {
+								v.Set("code_verifier", strings.ToUpper(cv)+"x")
+								codeDefect = "code_verifier replaced"
+							}
+						default:
+							v.Set("code_verifier", "0123456789abcdefghijklmnopqrstuvwxyzABCDEFGHIJKLMNOPQRSTUVWXYZ-._~")
+							codeDefect = "code_verifier of another session"
+						}
+					case "openid4vp-wrong-client-id":
+						id := v.Get("client_id")
+						if id == "" {
+							return
+						}
+						switch variant {
+						case 0:
+							v.Set("client_id", id+"2")
+							codeDefect = "client_id extended"
+						case 1:
+							v.Set("client_id", id[:len(id)-1])
+							codeDefect = "client_id shortened"
+						case 2:
+							v.Set("client_id", "https://nodea.sim/oauth2/vendorA")
+							codeDefect = "client_id of the authorization server itself"
+						default:
+							v.Set("client_id", "https://evil.sim/oauth2/vendorB")
+							codeDefect = "client_id on another host"
+						}
+					}
+					s.Info.Inc("token-request-of-code-grant-rewritten:" + scenario)
+				})
+			}
+		}
 		var sessionID string
 		var hops []world.Hop
 		s.Do("user-flow", 5*time.Minute, func() {
@@ -287,6 +363,25 @@ func c02Body(s *simkit.Sim, rc *simkit.RunCtx) {
 		sample.Issued = issued
 		sample.Answer = fmt.Sprintf("%d hops, token status: %d %s", len(hops), code, trunc(string(body), 120))
 		s.Info.Inc(map[bool]string{true: "issued:", false: "refused:"}[issued] + scenario)
+		if strings.HasPrefix(scenario, "openid4vp-wrong-") || scenario == "openid4vp-missing-verifier" {
+			if codeDefect == "" {
+				s.Fail("C02.harness", "user-flow", "the token request of the authorization-code grant was not seen: %s", sample.Answer)
+				return
+			}
+			if issued {
+				s.Fail("C02.issue", "issued:"+scenario, "the authorization-code grant ended in an access token although the token request was defective: %s", codeDefect)
+				return
+			}
+			// and nothing the authorization server answered to that request is a token
+			for _, r := range w.HTTP.Requests() {
+				if r.Method == "POST" && strings.HasSuffix(strings.SplitN(r.URL, "?", 2)[0], "/oauth2/vendorA/token") && world.IsTokenResponse(r.Status, r.RespBody) {
+					s.Fail("C02.issue", "issued:"+scenario, "the token endpoint answered a defective authorization-code request with a token: %s", codeDefect)
+					return
+				}
+			}
+			rc.Nontrivial = true
+			return
+		}
 		if forged && issued {
 			s.Fail("C02.issue", "issued:"+scenario, "the authorization-code grant ended in an access token although the first of the two presentations in the wallet's answer does not verify (its credential was altered)")
 			return
